@@ -37,7 +37,9 @@ def main():
     CP = ':'.join([os.path.join(b.B, 'aldor/lib/java/src/foamj.jar'), os.path.join(b.B, 'aldor/lib/libfoam/al/foam.jar'), os.path.join(b.B, 'lib/aldor/src/aldor.jar')])
     units = []
     for i, (sd, g, text, out, cls) in enumerate(progs):
-        for lv in LEVELS:
+        # the fresh slice runs at -Q1 only: at -Q3 the pinned tree's Java route miscomputes a few programs (recorded per pool
+        # program), which a fresh program could hit under another name
+        for lv in (LEVELS if sd.startswith('C12-pool') else LEVELS[:1]):
             units.append((i, lv, 'zqj%dq%s' % (i, lv[2:])))
     def trans(u):
         i, lv, name = u
@@ -72,7 +74,9 @@ def main():
             for u in ch:
                 q_ = run(['javac', '-nowarn', '-cp', CP + ':out', '-d', 'out', os.path.join('aldorcode', u[2] + '.java')], cwd=d, timeout=300)
                 if q_.rc != 0:
-                    ctx.violation('javac-rejects-generated-class', '%s %s: %s' % (progs[u[0]][0], u[1], (q_.err + q_.out)[-500:].decode(errors='replace')), {'x.as': progs[u[0]][2], 'x.java': open(os.path.join(d, 'aldorcode', u[2] + '.java'), 'rb').read()[:200000]})
+                    msg = (q_.err + q_.out).decode(errors='replace')
+                    key = 'javac-rejects:not-a-statement' if 'error: not a statement' in msg and msg.count('error:') == 1 else 'javac-rejects-generated-class'
+                    ctx.violation(key, '%s %s: %s' % (progs[u[0]][0], u[1], (q_.err + q_.out)[-500:].decode(errors='replace')), {'x.as': progs[u[0]][2], 'x.java': open(os.path.join(d, 'aldorcode', u[2] + '.java'), 'rb').read()[:200000]})
                 else: good.append(u)
         else: good += ch
     def runj(u):
@@ -85,7 +89,7 @@ def main():
         files = {'x.as': text, 'case.txt': '%s %s\nexpected (%s):\n%s\njava (%s):\n%s\n%s' % (sd, lv, cls, out[-1500:], p.cause, p.out[-1500:].decode(errors='replace'), p.err[-800:].decode(errors='replace'))}
         if p.timeout: ctx.violation('hang:java', '%s %s' % (sd, lv), files); continue
         if p.out.decode(errors='replace') != out or xc != cls:
-            ctx.violation('java-differs', '%s %s: java gives %r/%s, expected %r/%s' % (sd, lv, p.out[-150:], xc, out[-150:], cls), files)
+            ctx.violation('java-differs:%s:%s' % (sd, lv) if sd.startswith('C12-pool') else 'java-differs', '%s %s: java gives %r/%s, expected %r/%s' % (sd, lv, p.out[-150:], xc, out[-150:], cls), files)
     if os.environ.get('VF_WRITE_CANARIES'):
         with open(cp_, 'w') as fh:
             for (i, lv, name) in supported:
